@@ -13,9 +13,10 @@ type generator struct {
 	run   func(c *Ctx, want map[string]bool)
 }
 
-var diskflowRules = []string{"R03a", "R04a", "R01a", "R01c", "R17f", "R17g", "R12a", "R12c", "R12d", "R12e", "R18a", "R18d"}
+var diskflowRules = []string{"R14j", "R03a", "R04a", "R01a", "R01c", "R17f", "R17g", "R12a", "R12c", "R12d", "R12e", "R18a", "R18d"}
 
 var diskflowDocs = map[string]string{
+	"R14j": "Put reads its reader to the end on every exit: the reader parameter is reassigned only to nil and only after writeAndCloseFile consumed it, so the deferred io.Copy(io.Discard, r) drains it on every other path (pipes handed to Put rely on this)",
 	"R03a": "reservation pairing in Put / get / availableOrTryProxy (commit inlined): Reserve is called with no reservation held; every exit is reached with the reservation released exactly once with the reserved amount (deferred clean-up included); availableOrTryProxy hands a held reservation to its caller only together with tryProxy == true; commit releases the reservation and adds the entry under one lock",
 	"R04a": "temp-file pairing: a file created by tempfile.Create is, on every exit, either indexed by commit or removed; the deferred clean-up never removes a committed file; no second file is created while one is pending",
 	"R01a": "verify -> commit -> acknowledge: commit (index insertion) is dominated by writeAndCloseFile returning nil for the file created for this very upload; a nil error / reader is returned only with the entry committed",
@@ -30,7 +31,7 @@ var diskflowDocs = map[string]string{
 	"R18d": "proxy limits: every proxy.Get / proxy.Contains / queued backend check in cache/disk is dominated by requested size <= maxProxyBlobSize, and a positive answer that uses a backend-reported size is dominated by foundSize <= maxProxyBlobSize",
 }
 
-var diskflowMins = map[string]int{"R03a": 30, "R04a": 25, "R01a": 8, "R01c": 1, "R17f": 2, "R17g": 4, "R12a": 1, "R12c": 2, "R12d": 3, "R12e": 2, "R18a": 1, "R18d": 1}
+var diskflowMins = map[string]int{"R14j": 1, "R03a": 30, "R04a": 25, "R01a": 8, "R01c": 1, "R17f": 2, "R17g": 4, "R12a": 1, "R12c": 2, "R12d": 3, "R12e": 2, "R18a": 1, "R18d": 1}
 
 func allCloserEntries() []closerEntry {
 	return append(append(append([]closerEntry{}, diskCloserEntries...), proxyCloserEntries...), serverCloserEntries...)
@@ -183,14 +184,14 @@ func init() {
 	prop("C13", []string{"R13a", "R13b", "R13c", "R13d", "R13e", "R13f", "R13g"},
 		structural+"Decided: (R13a/b/c) the inventory of registered gRPC methods is read from the service descriptors, each is classified mutating iff its handler reaches Cache.Put, and the unauthenticated-read allow-list contains only registered, non-mutating methods; (R13d) in each auth interceptor every path to the handler is the health check, an allowed read, or a passed credential check; (R13e/R13f) for every valuation of the configuration the gRPC server and every HTTP route (/, /status, /metrics) is wrapped by the interceptor / handler that valuation requires; (R13g) the unauthenticated wrapper forwards only GET and HEAD and every Put in the HTTP handler is behind the PUT method and the write-certificate check.",
 		"Not decided: the cryptographic verification itself (crypto/tls, go-http-auth, LDAP library), TLS handshake configuration beyond ClientAuth, password file parsing.")
-	prop("C14", []string{"R14a", "R14b", "R14c", "R14d", "R14e", "R14f", "R14g", "R14h", "R14i", "R03a", "R04a", "R16c"},
+	prop("C14", []string{"R14a", "R14b", "R14c", "R14d", "R14e", "R14f", "R14g", "R14h", "R14i", "R14j", "R03a", "R04a", "R16c"},
 		structural+"Decided: (R14a) every field selection through a nilable protobuf message pointer in request code is dominated by a non-nil fact; (R14b) every division by a non-constant is dominated by a non-zero fact; (R14c) every non-induction index is dominated by a length bound; (R14g) no log.Fatal / os.Exit / panic is reachable from a handler, interceptor or cache method; (R14d) every closer obtained on a request path is closed, returned or handed over on every exit; (R14e) every pipe's read end is terminated so writers cannot block for ever; (R14f) goroutines started by a request can always finish (sends never exceed channel capacity); (R14h) every digest put into the list handed to the presence check is non-nil (the check dereferences its elements while holding the cache lock); (R03a/R04a) reservations and temp files are released on every exit.",
 		"Not decided: panics inside third-party libraries, unbounded memory from huge messages, termination of loops over attacker-controlled data, goroutines of the gRPC/HTTP servers themselves.")
 	prop("C15", []string{"R15a", "R15b", "R15c", "R15d", "R15e"},
 		structural+"Decided: (R15a) the kind -> key-prefix and kind -> directory tables are injective, prefix-free and inverted consistently by the path and loader code; (R15b) compressed reads are CAS-only; (R15c) the kind argument of every Cache call in package server is a constant or derived from the URL by the one parser; (R15d) every action-cache access is dominated by the mangling step with the request's own instance name and CAS keys are never mangled; TransformActionCacheKey is the identity exactly for the empty instance; (R15e) request hashes are validated before they become file names.",
 		"Not decided: collision resistance of SHA-256 (mangled keys), isolation as a statement over histories (follows from the key tables being injective).")
-	prop("C16", []string{"R16a", "R16b", "R16c", "R16d", "R12g"},
-		structural+"Decided: (R16a) SendAndClose with a success response is dominated by the Put result (nil, or io.EOF for already present); (R16b) committed_size is assigned only the four documented values; (R16c) the Put goroutine starts only for a first message with offset 0, a parsable name and a size within limits, and every protocol violation sends a real error to the result channel; (R16d) QueryWriteStatus reports complete with the full size exactly on presence; (R12g) the resource-name templates this code base writes are accepted by its own grammar.",
+	prop("C16", []string{"R16a", "R16b", "R16c", "R16d", "R12g", "R01c", "R01e"},
+		structural+"Decided: (R16a) SendAndClose with a success response is dominated by the Put result (nil, or io.EOF for already present); (R16b) committed_size is assigned only the four documented values; (R16c) the Put goroutine starts only for a first message with offset 0, a parsable name and a size within limits, and every protocol violation sends a real error to the result channel; (R16d) QueryWriteStatus reports complete with the full size exactly on presence; (R12g) the resource-name templates this code base writes are accepted by its own grammar; (R01c/R01e) 'more or fewer bytes than declared fails and stores nothing' rests on the store itself: the stream Write pipes into Cache.Put reaches the verifying writer unwrapped and uncut, which compares length and SHA-256 and probes for trailing bytes before its only success return.",
 		"Not decided: that any REAPI-conformant prefix/suffix parses (quantifies over strings; the regular expressions are not compared with the REAPI grammar), number of bytes actually received.")
 	prop("C17", []string{"R17a", "R17b", "R17c", "R17e", "R17f", "R17g"},
 		structural+"Decided: (R17a) in Reserve the hard-limit rejection dominates every eviction and counter store (refusal evicts nothing, stores nothing); (R17b) the compared quantity is currentSize + queuedEvictionsSize + requested size; (R17c) the backlog counter is increased on queueing and decreased by the same field after the file was removed (retry succeeds later); (R17e) the limit is active only when configured > 0 and 507 is produced nowhere else; (R17f) every file creation is dominated by a successful admission; (R17g) hits are returned without admission.",
